@@ -22,6 +22,9 @@ Definition head_not_eq (ts : list token) : bool :=
 
 Ltac norm_app := repeat (rewrite <- app_assoc || (progress cbn [List.app])).
 
+Lemma tsize_pos t : (tsize t >= 1)%nat.
+Proof. destruct t; cbn; lia. Qed.
+
 Lemma hd_ok_bin ts : hd_ok ts = true -> match ts with KOp o :: _ => is_op o "(" | _ => true end = true.
 Proof. destruct ts as [|[]]; auto. Qed.
 
@@ -112,12 +115,33 @@ Section StepEqs.
     apply orb_false_iff in H as [H H3]. apply orb_false_iff in H as [H1 H2]. rewrite H1, H2, H3. reflexivity.
   Qed.
 
-  Lemma tr_attr b nm r : private_name nm = false -> is_ref b = true ->
+  Lemma tr_attr b nm r : private_name nm = false -> is_method nm = false -> is_ref b = true ->
     pp_trailers stp b (K "." :: KName nm :: r) = pp_trailers rec (sm_attr b nm) r.
   Proof.
-    intros Hp Hb. cbn [pp_trailers step]. unfold trailers_step. change (is_op (s2p ".") ".") with true. cbv iota.
-    rewrite Hp, mk_access_attr by assumption. reflexivity.
+    intros Hp Hm Hb. cbn [pp_trailers step]. unfold trailers_step. change (is_op (s2p ".") ".") with true. cbv iota.
+    rewrite Hm, Hp, mk_access_attr by assumption. reflexivity.
   Qed.
+
+  Lemma tr_method b nm ts x r : is_method nm = true -> pp_operand rec ts = Some (x, K ")" :: r) ->
+    pp_trailers stp b (K "." :: KName nm :: K "(" :: ts) =
+    match call_method nm b x with Some t => pp_trailers rec t r | None => None end.
+  Proof.
+    intros Hm Hx. cbn [pp_trailers step]. unfold trailers_step. change (is_op (s2p ".") ".") with true. cbv iota.
+    rewrite Hm. change (is_op (s2p "(") "(") with true. cbv iota. rewrite Hx.
+    change (is_op (s2p ")") ")") with true. cbv iota. reflexivity.
+  Qed.
+
+  Lemma bin_paren ts l r : pp_operand rec ts = Some (l, K ")" :: r) -> is_ref l = true ->
+    binary_step rec ts = pp_trailers rec l r.
+  Proof. intros H Hl. unfold binary_step. rewrite H. change (is_op (s2p ")") ")") with true. cbv iota. rewrite Hl. reflexivity. Qed.
+
+  Lemma bin_op ts l o r : pp_operand rec ts = Some (l, KOp o :: r) -> is_op o ")" = false ->
+    binary_step rec ts =
+    match pp_operand rec r with
+    | Some (rr, r2) => close_paren rec (build_bin o l rr) r2
+    | None => None
+    end.
+  Proof. intros H Ho. unfold binary_step. rewrite H, Ho. reflexivity. Qed.
 
   Lemma tr_item b k ts r : is_ref b = true -> pp_operand rec ts = Some (k, K "]" :: r) ->
     pp_trailers stp b (K "[" :: ts) = pp_trailers rec (TItem b k) r.
@@ -249,7 +273,9 @@ Section Main.
       destruct (IHo Ho ([K "."; KName s] ++ rest)) as [A B]. split; [exact A|intros _; apply B; reflexivity].
     - cbn [RefsPrint.wf] in Hw. destruct (op_str c) as [s|] eqn:Es; [|rewrite andb_false_r in Hw; discriminate Hw].
       apply andb_true_iff in Hw as [Hw _]. apply andb_true_iff in Hw as [Hw _]. apply andb_true_iff in Hw as [Hc _].
-      rewrite (T_bin c l r s Hc Es). split; reflexivity.
+      destruct (is_eq_op s) eqn:Ee.
+      + rewrite (T_eq c l r s Hc Es Ee). split; reflexivity.
+      + rewrite (T_bin c l r s Hc Es Ee). split; reflexivity.
     - cbn [RefsPrint.wf] in Hw. apply andb_true_iff in Hw as [Hc _].
       assert (exists s, op_str c = Some s) as [s Es].
       { cbn in Hc. repeat (apply orb_true_iff in Hc as [Hc|Hc]; [apply N.eqb_eq in Hc; subst c; eexists; reflexivity|]). discriminate Hc. }
@@ -367,23 +393,33 @@ Section Main.
     - (* attribute *)
       cbn [RefsPrint.wf] in Hw. apply andb_true_iff in Hw as [Ho Hk].
       destruct k as [[z|b|t|nm| |lt]|? ?|? ?|? ?|? ? ?|? ?|?|? ? ?|? ? ?]; try discriminate Hk.
-      apply negb_true_iff in Hk.
+      apply andb_true_iff in Hk as [Hk Hmeth]. apply negb_true_iff in Hk. apply negb_true_iff in Hmeth.
       cbn [tsize] in Hn. rewrite T_attr, ostr_ref by (apply wf_is_ref; exact Ho). rewrite <- app_assoc. cbn [List.app].
       apply (IHo Ho (n0 + 1)%nat); [lia| |lia].
       intros m Hm. destruct m; [lia|]. rewrite Pn_S.
-      rewrite (tr_attr ns (Pn m) (sub o) nm rest Hk (sub_is_ref o Ho)). apply Htr. lia.
+      rewrite (tr_attr ns (Pn m) (sub o) nm rest Hk Hmeth (sub_is_ref o Ho)). apply Htr. lia.
     - (* binary operation *)
       cbn [RefsPrint.wf] in Hw. destruct (op_str c) as [s|] eqn:Es; [|rewrite andb_false_r in Hw; discriminate Hw].
       apply andb_true_iff in Hw as [Hw Hcase]. apply andb_true_iff in Hw as [Hw Hwr]. apply andb_true_iff in Hw as [Hc Hwl].
-      apply andb_true_iff in Hcase as [Hne Hcase]. apply negb_true_iff in Hne.
       fold (wf_operand l) in Hwl. fold (wf_operand r) in Hwr.
-      destruct (bin_op_shape c s Hc Es) as (Sh1 & Sh2 & Sh3 & Sh4).
-      assert (Hstop : trailer_start (KOp s :: ostr r ++ K ")" :: rest) = false) by (cbn; rewrite Sh1, Sh2, Sh3; reflexivity).
       pose proof (O_from_S r IHr Hwr) as Or.
       cbn [tsize] in Hn. destruct n; [lia|]. rewrite Pn_S.
-      rewrite (T_bin c l r s Hc Es). cbn [List.app]. rewrite op_paren.
-      assert (Hcl : forall t m, (m >= n0)%nat -> close_paren (Pn m) (Some t) (K ")" :: rest) = pp_trailers (Pn m) t rest)
-        by (intros; apply close_ok).
+      destruct (is_eq_op s) eqn:Hne.
+      { (* deferred comparison: (l)._eq(r) *)
+        pose proof (tsize_pos l) as Hpl. pose proof (tsize_pos r) as Hpr.
+        assert (Hwfl : wf l = true) by (destruct l; try discriminate Hcase; exact Hwl).
+        destruct (call_method_ok c s (sub l) (sub r) Hc Es Hne (sub_is_ref l Hwfl)) as [Hcm Hm].
+        rewrite (T_eq c l r s Hc Es Hne), ostr_ref by (apply wf_is_ref; exact Hwfl). cbn [List.app]. rewrite op_paren. norm_app.
+        rewrite paren_binary by (apply hd_ok_bin; apply T_shape; exact Hwfl).
+        rewrite <- (ostr_ref l) by (apply wf_is_ref; exact Hwfl).
+        rewrite (bin_paren (Pn n) _ (sub l) (K "." :: KName (eq_method s) :: K "(" :: ostr r ++ K ")" :: rest));
+          [|apply (O_from_S l IHl Hwl); [lia|reflexivity]|apply sub_is_ref; exact Hwfl].
+        destruct n; [lia|]. rewrite Pn_S.
+        rewrite (tr_method ns (Pn n) (sub l) (eq_method s) _ (sub r) rest Hm); [|apply Or; [lia|reflexivity]].
+        cbn [subst] in Htr. rewrite Hcm. apply Htr. lia. }
+      destruct (bin_op_shape c s Hc Es) as (Sh1 & Sh2 & Sh3 & Sh4).
+      assert (Hstop : trailer_start (KOp s :: ostr r ++ K ")" :: rest) = false) by (cbn; rewrite Sh1, Sh2, Sh3; reflexivity).
+      rewrite (T_bin c l r s Hc Es Hne). cbn [List.app]. rewrite op_paren.
       destruct (is_ref l) eqn:Erl.
       + (* reference on the left *)
         assert (Hwfl : wf l = true) by (destruct l; try discriminate Erl; exact Hwl).
@@ -391,8 +427,7 @@ Section Main.
         rewrite andb_false_r. cbn [andb]. norm_app.
         rewrite paren_binary.
         2:{ apply hd_ok_bin. rewrite ostr_ref by assumption. apply T_shape. exact Hwfl. }
-        unfold binary_step.
-        rewrite (O_from_S l IHl Hwl n (KOp s :: ostr r ++ K ")" :: rest)); [|lia|exact Hstop].
+        rewrite (bin_op (Pn n) _ (sub l) s (ostr r ++ K ")" :: rest)); [|apply (O_from_S l IHl Hwl); [lia|exact Hstop]|exact Sh4].
         rewrite (Or n (K ")" :: rest)); [|lia|reflexivity].
         rewrite (build_bin_ref c s (sub l) (sub r) Hc Es Hne (sub_is_ref l Hwfl)).
         rewrite close_ok. apply Htr. lia.
@@ -409,18 +444,20 @@ Section Main.
           destruct (is_op s "**") eqn:Epow.
           -- (* ((-v) ** r) *)
              norm_app.
-             rewrite paren_binary by reflexivity. unfold binary_step.
-             destruct n; [lia|]. rewrite Pn_S. rewrite op_paren, paren_negconst.
-             rewrite lit_neg_abs by assumption.
-             rewrite <- Pn_S. rewrite (Or (S n) (K ")" :: rest)); [|lia|reflexivity].
+             rewrite paren_binary by reflexivity.
+             destruct n; [lia|].
+             rewrite (bin_op (Pn (S n)) _ (TConst v) s (ostr r ++ K ")" :: rest));
+               [|rewrite Pn_S, op_paren, paren_negconst, lit_neg_abs by assumption; reflexivity|exact Sh4].
+             rewrite (Or (S n) (K ")" :: rest)); [|lia|reflexivity].
              cbn [subst] in *. rewrite Hb. rewrite close_ok. apply Htr. lia.
           -- (* (-v op r) *)
              norm_app. rewrite paren_neglit by assumption.
              rewrite (Or n (K ")" :: rest)); [|lia|reflexivity].
              rewrite lit_neg_abs by assumption. cbn [subst] in *. rewrite Hb. rewrite close_ok. apply Htr. lia.
         * change (toks_prefix [K "-"] [KNum v]) with false. rewrite andb_false_r.
-          norm_app. rewrite paren_binary by reflexivity. unfold binary_step.
-          destruct n; [lia|]. rewrite Pn_S at 1. rewrite op_num.
+          norm_app. rewrite paren_binary by reflexivity.
+          destruct n; [lia|].
+          rewrite (bin_op (Pn (S n)) _ (TConst v) s (ostr r ++ K ")" :: rest)); [|rewrite Pn_S; apply op_num|exact Sh4].
           rewrite (Or (S n) (K ")" :: rest)); [|lia|reflexivity].
           cbn [subst] in *. rewrite Hb. rewrite close_ok. apply Htr. lia.
     - (* unary operation *)
